@@ -167,6 +167,21 @@ CLAIMS: dict[str, tuple[str, str, str, str]] = {
         "Lean 4 proof (level invariant of push, flatness of text_join, tree constructibility) + stream predicate oracle",
         "§6 C02",
     ),
+    "C01": (
+        "PARTIAL (engine level FULL): block_total/block_tokenize_total and inline_total — both tokenizer loops "
+        "return normally (no exception, no endless loop; a hang is the value noProgress of the model) for EVERY "
+        "rule chain whose rules satisfy the contracts K1-K4 and that contains an always-matching fallback, for every "
+        "line table, range and maxNesting; incl. that Python's non-reset `ok` flag is harmless because rules "
+        "preserve the level; T1 obligation fallback_rules (paragraph last, text first, both in every preset). "
+        "MISSING: the contracts are hypotheses — proved only for the rules modelled in Lean, monitored on every "
+        "call of every real rule otherwise (harness/monitor.py, ~47k rule calls per quick run); renderer/CLI totality "
+        "and the CPython stack limit by oracle (time-limited sweeps: random x configurations, bounded-exhaustive "
+        "line documents, deep nesting, CLI bytes). Tie: contract monitor + replay of every real ParserBlock.tokenize "
+        "call on the Lean loop with recorded rule outcomes.",
+        NOTE + "Rule contracts are assumed by the engine theorems and checked at run time.",
+        "Lean 4 proof (termination/totality of the dispatch loops under rule contracts) + contract monitoring + crash/hang sweeps",
+        "§6 C01",
+    ),
 }
 
 PENDING_REASON = "check under construction in this session (Lean model + theorems not yet committed); not claimed until its check exists"
